@@ -166,9 +166,9 @@ func (r *Run) StartServer(spec *ServerSpec) (*Server, error) {
 		lvl = "info"
 	}
 	env := append([]string{"DTAIL_HOSTNAME_OVERRIDE=" + spec.Name}, spec.Env...)
-	bin := r.Bin("vcheck")
-	if spec.Race {
-		bin = r.Bin("vcheck-race")
+	bin, ok := r.WorkerBin("server")
+	if !ok {
+		return nil, fmt.Errorf("server worker unavailable")
 	}
 	d, err := StartDaemon(bin,
 		[]string{"child", "server", "-cfg", cfgFile, "-port", fmt.Sprint(spec.Port), "-logLevel", lvl},
